@@ -309,13 +309,15 @@ def check_premises(res, src, want):
                 f"{name}.overhang_error_delta_if_applied {prem.overhang_error_delta_if_applied}, {side} overhang is "
                 f"{w['overhang']} now and {w['overhang_if']} without the {w['which']} row so expected {delta}"
             )
+        # a removal improves when it brings the overhang nearer to zero, something remains, and it does not
+        # leave a negative overhang of three error lengths or more (those are cut instead)
+        closer = len(rows) > 1 and delta < 0
         for e in ERR_LENGTHS:
-            # a removal improves when it brings the overhang nearer to zero, something remains, and it does
-            # not leave a negative overhang of three error lengths or more (those are cut instead)
-            imp = len(rows) > 1 and delta < 0 and w["overhang_if"] > -3 * e
-            if prem.improves(e) is not imp or prem.makes_worse(e) is imp:
+            imp = closer and w["overhang_if"] > -3 * e
+            got = prem.improves(e)
+            if got is not imp or (e == 1 and prem.makes_worse(e) is imp):
                 return (
-                    f"{name}.improves({e}) = {prem.improves(e)}, makes_worse({e}) = {prem.makes_worse(e)}; {side} overhang "
+                    f"{name}.improves({e}) = {got}, makes_worse({e}) = {prem.makes_worse(e)}; {side} overhang "
                     f"{w['overhang']} -> {w['overhang_if']} on {len(rows)} rows means improves = {imp}"
                 )
         c = clone(res)
